@@ -12,6 +12,7 @@ def respell(rnd, f):
     """rewrite a filter into an equivalent spelling: sp. prefix added/removed, operator suffix <-> nested mapping, dotted <-> nested key"""
     out = {}
     for k, v in f.items():
+        v0 = v          # the entry as spelled by the generator (v is rebound to the operand below)
         if k in ("$and", "$or"):
             out[k] = [respell(rnd, g) for g in v]
             continue
@@ -44,7 +45,7 @@ def respell(rnd, f):
         if key in out:
             # two conditions would end up under one spelling of a key (e.g. 'doc.a.n.$eq' nested under 'doc.a' next to 'doc.a.$exists'):
             # a Python mapping cannot hold both, so this entry keeps its original spelling
-            key, val = k, v
+            key, val = k, v0
             if key in out:
                 return dict(f)
         out[key] = val
